@@ -294,7 +294,7 @@ def to_tuple(t):
     return tuple(to_tuple(x) if isinstance(x, list) else x for x in t)
 
 
-MODES = ["some", "each", "once", "n2"]
+MODES = ["some", "each", "once", "n2", "al1"]
 
 
 def render(t, v, mode, idx, named_lifetime=False):
@@ -308,8 +308,10 @@ def render(t, v, mode, idx, named_lifetime=False):
         "each": f"M::m.each_call(matching!()).returns({cfg})",
         "once": f"M::m.next_call(matching!()).returns({cfg}).once()",
         "n2": f"M::m.some_call(matching!()).returns({cfg}).n_times(2)",
+        # a lower bound leaves the number of calls open: a multi-use path
+        "al1": f"M::m.some_call(matching!()).returns({cfg}).at_least_times(1)",
     }[mode]
-    n_calls = {"some": 2, "each": 3, "once": 1, "n2": 2}[mode]
+    n_calls = {"some": 2, "each": 3, "once": 1, "n2": 2, "al1": 3}[mode]
     text = f"""// return case {idx}: {json.dumps(t)} value {json.dumps(v)} mode {mode}
 use super::support::*;
 use unimock::*;
